@@ -394,9 +394,8 @@ package spec
 // strsSorted(a): a is sorted by grammar.CmpString (A-SORT: what sort.Quick establishes for the slice it is given)
 //@ ghost func strsSorted(a Strings) bool
 //@ func hashStrings(s Strings) uint64
-//@   requires h != nil
 //@   callsite Quick assumes @A-SORT strsSorted(arg0)
-//@   modifies s, h.st
+//@   modifies s, all(io.Writer.st)
 //@   loop[0] invariant h.st == hfold(s, __i0)
 //@   ensures @only-reordered len(s) == len(old(s)) && (forall i int :: {s[i]} 0 <= i && i < len(s) ==> (exists j int :: 0 <= j && j < len(s) && s[i] == old(s)[j]))
 //@     && (forall j int :: {old(s)[j]} 0 <= j && j < len(s) ==> (exists i int :: 0 <= i && i < len(s) && s[i] == old(s)[j]))
